@@ -108,6 +108,13 @@ CLAIMED["C11"] = {
     "technique": "Coq proof (adjoint characterisation of the linear backward) + extracted-facts tie + exact integer correspondence + float-twin gradient audit",
 }
 
+CLAIMED["C15"] = {
+    "text": "Coq theorems over a model of the AWQ layouts (Model/Awq.v: v1 with / without column order, v2, and the reference packer of external/awq): nibble packing into signed words is invertible for ANY word size and content (general arithmetic proof); every other step is data movement, proved to commute with any relabelling of elements, so a layout is determined by what it does to the tensor of positions; for every admissible shape of a stated bound (v2: rows 4..16, columns 64..192; v1: rows 1..8, columns 8..128) and EVERY 4-bit content unpack inverts pack and v2 is bit-identical to the reference packer; a generic theorem turns the per-shape position computation into the all-contents statement, which the thorough tier instantiates for larger shapes inside Coq. Tie: the column-order constants (as values), interleave / stride constants and AST fingerprints of all transcribed functions, re-read on every run; correspondence: the real code, executed on the CPU with its device assertions removed at AST level, is compared element by element with the model on random / position / extreme matrices. Audit: optimised vs standard dequantization on float16 group-128 weights and the back conversion.",
+    "note": "Trusted: Coq kernel + vm_compute; gen_awq.py; the AST-level removal of `assert ... cuda` (4 statements) in a private copy of the awq modules - nothing else is altered; torch CPU reshape / permute / shift semantics standing for the CUDA ones; the CUDA gemm kernel is never executed. The bijectivity theorems are per shape up to the stated bound (the property's own quantifier), not for unbounded shapes. Theorems are axiom-free except the real-number identity. Known finding F16 (back conversion).",
+    "design": "6/C15",
+    "technique": "Coq proof (nibble arithmetic + movement parametricity + per-shape position permutation by vm_compute) + constants/fingerprint tie + element-wise correspondence on CPU-executed code",
+}
+
 NOT_YET = {}
 
 
